@@ -12,6 +12,7 @@
 //   inject x<bytes>                                             ok <log index>    (a forged packet; taints the case)
 //   rx <i> <a>                                                  ok <a>:x<flat Message>...
 //   perfect                                                     ok <a>:x<flat>... (whole log, in order, true sources)
+//   sendw <s> <g1,g2,..|-> x<flat Message>...                   ok x<packet>...   (as send; g_i = what the i-th Write() returns: 0 would block, small = short write)
 //   taint                                                       ok          (hypotheses of the property do not hold here: oracle off)
 #include "libvh/vh.h"
 #include "tun_access.h"
@@ -60,7 +61,7 @@ struct TunEngine : public Engine
    SenderObj * snd[3];
    std::vector<LogEntry> log;
    // oracle bookkeeping
-   bool tainted;
+   bool tainted, backpressure, shortWrite;
    std::vector<std::string> sentBy[3];                 // flattened Messages handed to sender s
    std::vector<std::pair<uint32,std::string> > sendOrder;
    std::map<uint32, std::set<uint32> > presented;      // address -> senders whose packets were presented as coming from it
@@ -74,7 +75,7 @@ struct TunEngine : public Engine
       haveRx = false; rxFresh = false; kind = 0; rxMtu = rxMagic = rxSex = rxMisc = 0; rxMaxIn = MUSCLE_NO_LIMIT;
       rxGw.Reset(); delete rxIO; rxIO = NULL;
       for (int i=0; i<3; i++) {delete snd[i]; snd[i] = NULL; sentBy[i].clear();}
-      log.clear(); tainted = false; sendOrder.clear(); presented.clear();
+      log.clear(); tainted = false; backpressure = false; shortWrite = false; sendOrder.clear(); presented.clear();
    }
 
    void makeReceiver()
@@ -174,12 +175,24 @@ struct TunEngine : public Engine
          so.gw()->SetDataIO(DummyDataIORef(so.io));
          return "ok";
       }
-      if ((op == "send")&&(t.size() >= 2))
+      if (((op == "send")&&(t.size() >= 2))||((op == "sendw")&&(t.size() >= 3)))
       {
          if ((!toU64(t[1], v[0]))||(v[0] > 2)||(snd[v[0]] == NULL)) return "bad-op";
          SenderObj & so = *snd[v[0]];
+         std::vector<uint32> grants; size_t first = 2;
+         if (op == "sendw")
+         {
+            first = 3;
+            if (t[2] != "-")
+            {
+               std::vector<std::string> parts = split(t[2], ',');
+               if (parts.empty()) return "bad-op";
+               for (size_t i=0; i<parts.size(); i++) {uint64_t g; if (!u32(parts[i], g)) return "bad-op"; grants.push_back((uint32)g);}
+            }
+         }
+         for (size_t i=0; i<grants.size(); i++) {if (grants[i] == 0) backpressure = true; else if (grants[i] < 70000) {backpressure = true; shortWrite = true;}}
          std::vector<MessageRef> msgs; std::vector<std::string> flats;
-         for (size_t i=2; i<t.size(); i++)
+         for (size_t i=first; i<t.size(); i++)
          {
             std::string b; if (!unhex(t[i], b)) return "bad-op";
             MessageRef m = GetMessageFromPool();
@@ -190,8 +203,10 @@ struct TunEngine : public Engine
          }
          for (size_t i=0; i<msgs.size(); i++) {(void) so.gw()->AddOutgoingMessage(msgs[i]); sentBy[v[0]].push_back(flats[i]); sendOrder.push_back(std::make_pair((uint32)v[0], flats[i]));}
          so.io.Written().clear();
+         so.io.SetWriteScript(grants);
          for (int guard=0; (guard<1000000)&&(so.gw()->HasBytesToOutput()); guard++) if (so.gw()->DoOutput().GetByteCount() <= 0) break;
-         if (so.gw()->HasBytesToOutput()) oracleFail("sender did not drain its queue");
+         so.io.SetWriteScript(std::vector<uint32>());
+         if ((!backpressure)&&(so.gw()->HasBytesToOutput())) oracleFail("sender did not drain its queue");
          std::string r = "ok";
          const uint32 em = effMtu(so.kind, so.mtu);
          for (size_t i=0; i<so.io.Written().size(); i++)
@@ -225,11 +240,35 @@ struct TunEngine : public Engine
          for (size_t i=0; i<log.size(); i++) deliver((uint32)i, log[i].sender, col);
          // "when the transport delivers every packet once and in order, every sent Message that fits the
          //  gateway's limits is delivered exactly once, in order" -- for senders the receiver listens to
-         bool applicable = fresh && !tainted;
+         bool applicable = fresh && !tainted && !backpressure;   // a transport that refused or cut packets is not the perfect one
          for (int s=0; s<3; s++) if (snd[s])
          {
             const SenderObj & so = *snd[s];
             if ((so.kind != kind)||(so.magic != rxMagic)||((rxSex != 0)&&(rxSex == so.sex))||(effMtu(kind, rxMtu) < effMtu(so.kind, so.mtu))) applicable = false;
+         }
+         // a transport that only made the sender wait (Write() returned 0, never a short count) delays Messages but must not
+         // lose or damage any that were written: per sender, what arrives is a prefix of what it was given (and fits)
+         bool listens = fresh && !tainted && backpressure && !shortWrite;
+         for (int s=0; s<3; s++) if (snd[s])
+         {
+            const SenderObj & so = *snd[s];
+            if ((so.kind != kind)||(so.magic != rxMagic)||((rxSex != 0)&&(rxSex == so.sex))||(effMtu(kind, rxMtu) < effMtu(so.kind, so.mtu))) listens = false;
+         }
+         if (listens)
+         {
+            for (uint32 s=0; s<3; s++) if (snd[s])
+            {
+               std::vector<std::string> want, got;
+               for (size_t i=0; i<sendOrder.size(); i++) if (sendOrder[i].first == s)
+               {
+                  const size_t n = sendOrder[i].second.size();
+                  if ((kind == 0) ? (n <= (size_t)rxMaxIn) : (n+16 <= (size_t)effMtu(1, snd[s]->mtu))) want.push_back(sendOrder[i].second);
+               }
+               for (size_t i=0; i<col.got.size(); i++) if (col.got[i].a == s) got.push_back(col.got[i].flat);
+               bool prefix = (got.size() <= want.size());
+               for (size_t i=0; (prefix)&&(i<got.size()); i++) prefix = (got[i] == want[i]);
+               if (!prefix) oracleFail("transport that only blocked (no loss, no short write): the " + u64s(got.size()) + " deliveries of sender " + u64s(s) + " are not a prefix of its " + u64s(want.size()) + " Messages: a written Message was lost or damaged");
+            }
          }
          if (applicable)
          {
@@ -434,6 +473,7 @@ struct TunEngine : public Engine
          emit(out, "snd " + u64s(s) + " " + u64s(k) + " " + u64s(smtu) + " " + u64s(magic) + " " + u64s(r.chance(1,3) ? r.range(1,3) : 0) + " " + u64s(startId) + " " + u64s(compress ? r.range(1,9) : 0));
       }
       // two senders presented under one address have colliding ids sooner or later: outside the property's hypothesis
+      const bool pushback = r.chance(1,4);
       const bool shareAddr = (nsrc > 1)&&(r.chance(1,10));
       if (shareAddr) emit(out, "taint");
       const uint32 rounds = r.range(1, tier.thorough ? 6 : 4);
@@ -446,13 +486,27 @@ struct TunEngine : public Engine
          {
             const uint32 s = r.below(nsrc);
             std::string line = "send " + u64s(s);
+            if (pushback && r.chance(2,3))
+            {
+               // a transport that pushes back: would-block (0), short writes, whole packets
+               line = "sendw " + u64s(s) + " ";
+               const uint32 ng = r.range(1, 4);
+               for (uint32 i=0; i<ng; i++)
+               {
+                  const uint32 c = r.below(4);
+                  // open finding C12-mini-held-header (corpus/C12/tun-mini-held-header.ops): with compression on, a held mini-tunnel
+                  // packet can go out with a wrong level byte; kept out of this stream, so compressing senders are never made to wait
+                  const uint32 g = compress ? 100000 : (c <= 1) ? 0 : (c == 2) ? 100000 : r.range(1, effMtu(k, mtu));
+                  line += (i ? "," : "") + u64s(g);
+               }
+            }
             const uint32 nm = r.chance(1,3) ? 1 : r.range(1, 4);
             for (uint32 i=0; i<nm; i++)
             {
                uint32 sz = pickSize(r, snd[s]->kind, snd[s]->mtu);
-               // known finding C12-oversize (corpus/C12/tun-oversize-swallows-next.ops): a Message over the receiver's limit takes the
-               // rest of its last packet with it, so in this stream only the last Message of a `send` may be over the limit
-               if ((k == 0)&&(i+1 < nm)&&(sz > maxIn)) sz = (maxIn >= 34) ? maxIn : 12;
+               // Messages over the receiver's limit are part of the stream, in every queue position (finding C12-oversize,
+               // fixed by 79d1d2b; regression case corpus/C12/tun-oversize-swallows-next.ops); some are cut to the limit itself
+               if ((k == 0)&&(sz > maxIn)&&(r.chance(1,3))) sz = (maxIn >= 34) ? maxIn : 12;
                line += " " + hexOf(makeMsg(r, sz));
             }
             emit(out, line);
